@@ -239,7 +239,9 @@ def probe_check(prop, tier, seed, sd, t0, probe_pkg, mc, trace_module, trace_cfg
             if kf.get('status') == 'known' and kf['property'] == prop and kf['clause'] == v[0]:
                 # a known finding is identified by its clause AND the probe scenario of the line
                 ln = lines[v[1] - 1]
-                if kf.get('scenario') and ('"scn":"%s"' % kf['scenario']) in ln:
+                scns = kf.get('scenario')
+                scns = scns if isinstance(scns, list) else [scns]
+                if any(x and ('"scn":"%s"' % x) in ln for x in scns):
                     k = kf
         (known if k else real).append((v, k))
     rc = 0
@@ -312,9 +314,28 @@ def check_c16(prop, tier, seed, sd, t0):
                        unit='"ev":"agg"', selfcontained=True)
 
 
-CHECKS = {'C13': check_c13, 'C19': check_c19, 'C07': check_c07, 'C09': check_c09, 'C16': check_c16}
+def check_c08(prop, tier, seed, sd, t0):
+    return probe_check(prop, tier, seed, sd, t0, './cmd/layoutprobe', [], 'LayoutTrace.tla', 'LayoutTrace.cfg', ('Layout.tla', 'Search.tla'), 'C08_',
+                       'generated logical corpora (0, 1, 3, 7, 12, 15, 25 or 40 documents; the empty corpus always included) each built by 16 recipes: all at once, one document per batch, random '
+                       'partition in memory, ice v2, optimisations disabled, close + OpenReader, Backup + OpenReader, scoring off, OfflineWriter with batch sizes 1 / 3 / 100 (more than 10 batches => '
+                       'merge rounds), forced merges (with and without scoring), extra documents written and deleted again (pending deletions), corpus partitioned over 2 and 3 indexes + MultiSearch; '
+                       'each build answers 10 (16) queries (match-all, conjunction, disjunction, random trees); per answer TLC checks match set = Search!Eval(abstract corpus), the order under the '
+                       'total field sort (n1, _id), count and sum aggregations, stored fields, and bit-equality of scores across the builds for which the property promises it; merged builds are '
+                       'compared too and reported under the listed known finding; distinct = distinct logged answers',
+                       ['every answer is compared with a function of the abstract corpus, so pairwise agreement of recipes follows', 'forced merges are given 30 ms; whatever layout results is legal',
+                        'scores are compared as float64 bit patterns'],
+                       unit='"ev":"ans"')
+
+
+CHECKS = {'C13': check_c13, 'C19': check_c19, 'C07': check_c07, 'C09': check_c09, 'C16': check_c16, 'C08': check_c08}
 
 MANIFEST_ENTRIES = {
+    'C08': ('Layout.tla: every build recipe reaches the same abstract corpus, and each answer (match set via Search!Eval, order under a total field sort, count and sum aggregations) is defined as a '
+            'function of the abstract corpus alone; scores are an uninterpreted function fixed by the first build for which the property promises equality and compared bit for bit with every later '
+            'one. Code: 16 build recipes per generated corpus incl. the empty one (batch partitioning, in-memory, ice v1/v2, optimisations off, scoring off, reopen, Backup + OpenReader, OfflineWriter '
+            'with > 10 batches, forced merges, pending deletions, partition over k indexes + MultiSearch) answer generated queries; LayoutTrace checks every answer. Score differences of builds with '
+            'merged segments are the listed known finding.', '6 C08',
+            'TLA+ specification of layout-independent answers (Layout.tla over Search.tla) evaluated by TLC on the answers of every real build recipe (LayoutTrace)', SEQ_NOTE, 'model_checking'),
     'C16': ('Aggs.tla defines every aggregation as direct evaluation over the matched documents (count, sum, min, max, (sum, n) for averages, (sum v*w, sum w) for weighted averages, '
             'per-value bucket consumption for terms / numeric / date ranges with nested metrics, terms selection = the largest buckets, remainder for single-valued fields, exact distinct count, '
             'quantiles within [min, max] and monotone). Code: real searches with the whole aggregation tree under many (n, from, sort, after/before) settings incl. n = 0 and the AllMatches '
